@@ -11,7 +11,7 @@ def run(v, prefixes=("C08",), pid="C08"):
     ser, org, utils = cells.api()
     events = []
     unis = ("U1", "U2", "U3") if quick else ("U1", "U2", "U3", "U4", "U5")
-    per_uni = (1500 if pid == "C08" else 1100) if quick else 40000
+    per_uni = (1500 if pid == "C08" else 1100) if quick else 12000
     n_model = 0
     for name in unis:
         res = cp.run_universe(d, name, timeout=3000)
